@@ -87,8 +87,8 @@ def h_rendezvous(ctx, plan):
       comp = NAMES[int(ctx.int('lname%d' % i, 0, 2))]
       hits = []
       class Sink(object):
-        def _all_dependencies_met(self): hits.append('met')
-      def handler(self, event): hits.append('ping')
+        def _all_dependencies_met(self, hits=hits): hits.append('met')
+      def handler(self, event, hits=hits): hits.append('ping')
       setattr(Sink, '_handle_%s_Ping' % comp, handler)
       s = Sink()
       sinks.append((s, comp, hits))
